@@ -22,6 +22,10 @@ type TimerScen struct {
 type TimerSpec struct {
 	Interval bool `json:"interval,omitempty"`
 	PeriodMs int  `json:"period"`
+	// callback behaviour: a callback that takes virtual time (so that cancellations, refreshes and
+	// the next tick land while it runs) and/or cancels its own timer on its k-th run
+	CbSleepMs    int `json:"cbSleep,omitempty"`
+	SelfCancelAt int `json:"selfCancelAt,omitempty"`
 }
 
 type TimerOp struct {
@@ -101,9 +105,27 @@ func (f *timersFam) do(w *World, o TimerOp) {
 		if f.timers[i] != nil {
 			return
 		}
+		runs := 0
 		cb := func() {
 			w.recx(Ev{Kind: "fire", N: int64(i)})
+			runs++
+			k := runs
 			simrt.Yield(-5)
+			if sp.CbSleepMs > 0 {
+				w.probe("slow_callback")
+				simrt.Sleep(time.Duration(sp.CbSleepMs) * time.Millisecond)
+			}
+			if sp.SelfCancelAt > 0 && k == sp.SelfCancelAt && f.timers[i] != nil {
+				w.probe("callback_cancels_own_timer")
+				w.recx(Ev{Kind: "stop-invoke", N: int64(i), S: "self"})
+				if sp.Interval {
+					utils.ClearInterval(f.timers[i])
+				} else {
+					utils.ClearTimeout(f.timers[i])
+				}
+				simrt.Yield(-5)
+				w.recx(Ev{Kind: "stop-ret", N: int64(i), S: "self"})
+			}
 		}
 		w.recx(Ev{Kind: "create", N: int64(i), S: o.Task})
 		if sp.Interval {
@@ -169,6 +191,7 @@ func (f *timersFam) finish(w *World, res *Result) {
 		fired := 0 // fires since the last arming
 		cancelled := false
 		var cancelRetSeq int
+		var cancelRetT time.Duration
 		var cancelInvT time.Duration
 		cancelPending := 0 // stop calls invoked but not returned
 		refreshed := false
@@ -213,16 +236,21 @@ func (f *timersFam) finish(w *World, res *Result) {
 			case "stop-ret":
 				cancelPending--
 				if !cancelled {
-					cancelled, cancelRetSeq = true, e.Seq
+					cancelled, cancelRetSeq, cancelRetT = true, e.Seq, e.T
 				}
 			case "fire":
 				if refreshAfterCancel {
 					continue
 				}
 				if cancelled && e.Seq > cancelRetSeq {
-					when := "/no-call-at-a-due-instant"
-					if tieTimer {
-						when = "/after-call-at-due-instant" // some Refresh/Stop of this timer was issued exactly when it was due
+					// discriminator: a callback in the very instant of a cancellation that was issued exactly when
+					// the timer was due (the goroutine had committed to the callback) vs. a callback at a later instant
+					when := "/later-instant-than-cancel"
+					if e.T == cancelRetT {
+						when = "/same-instant-as-cancel"
+						if tieTimer && cancelInvT == cancelRetT {
+							when = "/after-call-at-due-instant"
+						}
 					}
 					l.add("no-callback-after-cancel-returned", kind+when, fmt.Sprintf("timer %d (%s %v): callback started at %v (event #%d) after the cancellation had returned (event #%d)", i, kind, p, e.T, e.Seq, cancelRetSeq))
 					continue
@@ -332,6 +360,12 @@ func GenTimers(prop string, seed uint64, thorough bool) *Scenario {
 	end := 0
 	for i := 0; i < nt; i++ {
 		sp := TimerSpec{Interval: g.p(0.4), PeriodMs: g.pick(1, 2, 5, 10, 20, 50)}
+		if g.p(0.3) {
+			sp.CbSleepMs = g.pick(1, sp.PeriodMs/2+1, sp.PeriodMs, 2*sp.PeriodMs+1)
+		}
+		if g.p(0.25) {
+			sp.SelfCancelAt = g.pick(1, 1, 2, 3)
+		}
 		ts.Timers = append(ts.Timers, sp)
 		t0 := g.pick(0, 0, 1, 5, 10)
 		creator := fmt.Sprintf("a%d", g.IntN(ntask))
